@@ -210,6 +210,7 @@ Classified classify(const PlanView &v, bool needWritten) {
   hexref::Io rio; rio.input = v.input; rio.keepHistory = false;
   for (int k = 0; k < 8; k++) if (v.siminPresent[k]) { rio.fileExists[k] = true; rio.fileIn[k] = v.simin[k]; }
   m.clearMemory();
+  m.taint = true;      // loading an unwritten word is harmless; using its value is not
   m.reset(); m.io = &rio;
   m.loadImage(v.image);
   uint64_t budget = v.maxCycles;
